@@ -136,6 +136,13 @@ func (e *Exec) bindParams(s *State) {
 	e.pendingParamInv = true
 	var fvRefs []*Node
 	for _, fv := range e.fn.FreeVars {
+		if e.fc != nil && e.frozenCapture(fv.Name()) {
+			// frozen capture: keeps, inside the closure, the value it had when the closure was created
+			// (the creator proves the closure's precondition there and that no later assignment exists)
+			e.regs[fv] = &LocalPtr{Cell: fv}
+			s.locals[fv] = e.freshValue(s, "fz_"+fv.Name(), derefType(fv.Type()))
+			continue
+		}
 		v := e.freshValue(s, "fv_"+fv.Name(), fv.Type())
 		e.regs[fv] = v
 		if n, ok := v.(*Node); ok {
@@ -338,6 +345,22 @@ func (e *Exec) execLoop(h *ssa.BasicBlock, loop map[*ssa.BasicBlock]bool, pre *S
 		invs = e.fc.LoopInv[ord]
 		dec = e.fc.LoopDec[ord]
 	}
+	savedLoop := e.curLoop
+	e.curLoop = h
+	defer func() { e.curLoop = savedLoop }()
+	// range-over-slice loops: the hidden index stays in [-1, len) — added as an ordinary invariant
+	// (checked on entry and preservation like any other), so that element accesses are in range
+	if ri := rangeIndexInvariant(h); ri != nil && e.fc != nil {
+		have := false
+		for _, c := range invs {
+			if strings.Contains(c.Text, "rangeindex") {
+				have = true
+			}
+		}
+		if !have {
+			invs = append(append([]*Clause(nil), invs...), ri)
+		}
+	}
 	// 1. invariants hold on entry
 	for i, c := range invs {
 		g := e.evalClause(c, pre, e.oldState(), nil)
@@ -441,6 +464,36 @@ func (e *Exec) execLoop(h *ssa.BasicBlock, loop map[*ssa.BasicBlock]bool, pre *S
 		if full[k] == nil || whole2[k] {
 			if e.writtenWhole != nil {
 				e.writtenWhole[k] = true
+			}
+			// unknown calls inside the loop cannot reach variable cells that are still private to this
+			// activation; those the loop does not assign itself keep their value
+			if full[k] != nil {
+				for _, pc := range pre.priv {
+					t := derefType(pc.alloc.Type())
+					if _, isArr := t.Underlying().(*types.Array); isArr {
+						continue
+					}
+					mine := false
+					for _, li := range e.mode.leaves(t) {
+						if heapNameObj(t, li.Path) == k {
+							mine = true
+						}
+					}
+					if !mine {
+						continue
+					}
+					written := false
+					for _, r := range refs2[k] {
+						if r == pc.ref {
+							written = true
+						}
+					}
+					if !written {
+						if hp, ok := pre.heaps[k]; ok {
+							head.heaps[k] = Store(head.heaps[k], pc.ref, Select(hp, pc.ref))
+						}
+					}
+				}
 			}
 			continue
 		}
@@ -659,6 +712,9 @@ func (e *Exec) constValue(c *ssa.Const) Value {
 var strLits = map[string]*Node{}
 
 func (e *Exec) strLit(s string) *Node {
+	if nativeStrings {
+		return smtStringLit(s)
+	}
 	declStr()
 	if s == "" {
 		return strEmpty()
@@ -705,6 +761,9 @@ func trunc(s string, n int) string {
 }
 
 func (e *Exec) strLen(x *Node) *Node {
+	if nativeStrings {
+		return App("str.len", "Int", x)
+	}
 	declStr()
 	l := App("slen", "Int", x)
 	if e.mode == ModeBV {
@@ -716,6 +775,9 @@ func (e *Exec) strLen(x *Node) *Node {
 }
 
 func (e *Exec) strChars(x *Node) *Node {
+	if nativeStrings {
+		e.unsupported("byte access to a string in native string mode")
+	}
 	declStr()
 	if e.mode == ModeBV {
 		return App("scharsbv", "(Array (_ BitVec 64) (_ BitVec 8))", x)
@@ -990,10 +1052,20 @@ func (e *Exec) binop(s *State, op token.Token, a, b Value, at, bt types.Type, po
 			return Not(Eq(an, bn))
 		case token.ADD:
 			e.logAbs("string concatenation: length only")
-			r := TS.Fresh("strcat", "Str")
-			s.assume(Eq(e.strLen(r), e.iadd(e.strLen(an), e.strLen(bn))))
+			if nativeStrings {
+				return App("str.++", "String", an, bn)
+			}
+			declStr()
+			TS.DeclFun("str_cat", []string{"Str", "Str"}, "Str")
+			r := App("str_cat", "Str", an, bn)
+			if !r.bound {
+				s.assume(Eq(e.strLen(r), e.iadd(e.strLen(an), e.strLen(bn))))
+			}
 			return r
 		case token.LSS, token.LEQ, token.GTR, token.GEQ:
+			if nativeStrings {
+				e.unsupported("string ordering in native string mode")
+			}
 			TS.DeclFun("str_lt", []string{"Str", "Str"}, "Bool")
 			lt := App("str_lt", "Bool", an, bn)
 			gt := App("str_lt", "Bool", bn, an)
@@ -1053,7 +1125,7 @@ func (e *Exec) convert(s *State, v Value, from, to types.Type) Value {
 		return v
 	case fi && isString(to):
 		e.logAbs("string(rune) conversion: unconstrained string")
-		return TS.Fresh("runestr", "Str")
+		return TS.Fresh("runestr", strSort())
 	}
 	if _, ok := from.Underlying().(*types.Pointer); ok {
 		return v
@@ -1076,6 +1148,9 @@ func isByteSlice(t types.Type) bool {
 
 func (e *Exec) bytesToString(s *State, sl *SliceV) *Node {
 	declStr()
+	if nativeStrings {
+		e.unsupported("[]byte to string conversion in native string mode")
+	}
 	r := TS.Fresh("str", "Str")
 	name := heapNameArr(types.Typ[types.Uint8], "")
 	bs := e.mode.intSort(types.Typ[types.Uint8])
@@ -1194,6 +1269,9 @@ func (e *Exec) slice(s *State, x *ssa.Slice) Value {
 			hi = e.strLen(str)
 		}
 		e.bounds(s, And(e.ile(e.idx(0), lo), e.ile(lo, hi), e.ile(hi, e.strLen(str))), x.Pos(), "string slice bounds")
+		if nativeStrings {
+			return App("str.substr", "String", str, lo, e.isub(hi, lo))
+		}
 		r := TS.Fresh("substr", "Str")
 		s.assume(Eq(e.strLen(r), e.isub(hi, lo)))
 		i := BoundVar("i!ss", e.mode.idxSort())
@@ -1342,4 +1420,36 @@ func onlyClosureEscapes(a *ssa.Alloc) bool {
 		return true
 	}
 	return okUse(a, 0)
+}
+
+func (e *Exec) frozenCapture(name string) bool {
+	for _, f := range e.fc.Frozen {
+		if f == name {
+			return true
+		}
+	}
+	for _, r := range e.fc.Requires {
+		if mentionsIdent(r.Text, name) {
+			return true
+		}
+	}
+	return false
+}
+
+var rangeIdxClause *Clause
+
+// rangeIndexInvariant: if h is the header of a range-over-slice/array loop (SSA: rangeindex cell
+// incremented in the header and compared with the length), the clause "-1 <= rangeindex".
+func rangeIndexInvariant(h *ssa.BasicBlock) *Clause {
+	if h.Comment != "rangeindex.loop" {
+		return nil
+	}
+	if rangeIdxClause == nil {
+		n, err := parseSpec("-1 <= rangeindex && rangeindex < 281474976710656")
+		if err != nil {
+			return nil
+		}
+		rangeIdxClause = &Clause{Text: "-1 <= rangeindex (implicit for range loops)", Expr: n}
+	}
+	return rangeIdxClause
 }
